@@ -456,6 +456,12 @@ func C10(r *eng.Run) {
 	})
 	r.Phase("Rat round trip", t0, nil)
 
+	// R: values reached by operation sequences
+	reachedPhase(r, "R values reached by operation sequences", reachedAll(r), func(w *eng.W, b ref.Bits, v ref.Val) {
+		checkToInts(w, b, v)
+		checkRat(w, b, v)
+	})
+
 	t0 = time.Now()
 	r.Par(len(shapes), func(w *eng.W, i int) {
 		a := shapes[i]
